@@ -333,6 +333,53 @@ func serverQuiescent() (bool, string) {
 	return true, ""
 }
 
+// serverWedged reports whether no goroutine executing server code can make
+// progress by itself although the server is not quiescent: every one of them
+// is parked waiting for input or blocked on a channel send or a lock, and at
+// least one is blocked. (runtime.Stack(all) stops the world, so the states
+// are one consistent snapshot: a blocked goroutine whose partner is about to
+// release it would show that partner as runnable or running.) A state
+// predicate, not a timer.
+func serverWedged() (bool, string) {
+	var buf []byte
+	for {
+		n := runtime.Stack(stackBuf, true)
+		if n < len(stackBuf) {
+			buf = stackBuf[:n]
+			break
+		}
+		stackBuf = make([]byte, 2*len(stackBuf))
+	}
+	blocked := ""
+	for _, g := range strings.Split(string(buf), "\n\n") {
+		if !strings.Contains(g, "github.com/gopcua/opcua/server.") {
+			continue
+		}
+		head := g
+		if i := strings.IndexByte(g, '\n'); i > 0 {
+			head = g[:i]
+		}
+		st := head
+		if i := strings.IndexByte(head, '['); i >= 0 {
+			st = head[i+1:]
+		}
+		if i := strings.IndexAny(st, ",]"); i >= 0 {
+			st = st[:i]
+		}
+		switch st {
+		case "select", "chan receive", "IO wait", "select (no cases)":
+			continue
+		case "chan send", "chan send (nil chan)", "chan receive (nil chan)", "semacquire", "sync.Mutex.Lock", "sync.RWMutex.Lock", "sync.RWMutex.RLock", "sync.Cond.Wait", "sync.WaitGroup.Wait":
+			if blocked == "" {
+				blocked = st
+			}
+			continue
+		}
+		return false, head // running, runnable, syscall, sleep, ...: somebody is still working
+	}
+	return blocked != "", "a server goroutine is blocked in [" + blocked + "]"
+}
+
 // waitQuiescent spins until the server is quiescent; false after the watchdog.
 func waitQuiescent() (bool, string) {
 	deadline := time.Now().Add(watchdog)
